@@ -207,6 +207,10 @@ def execute(unc, cfg, a, files, d, obs=(), env=None, timeout=60, cwd_sub=None):
     cmd, stdin, lst = render(unc, cfg, a, files, obs)
     if lst is not None:
         open(os.path.join(d, "aux_list.txt"), "w").write(lst)
+    # a file that the configuration names relative to ITSELF (cmt_insert_file_header = aux_hdr.txt next to the config file): a
+    # same-named file with other text in the working directory must not be taken instead
+    if os.path.exists(os.path.join(os.path.dirname(cfg), "aux_hdr.txt")) and os.path.dirname(cfg) != d:
+        open(os.path.join(d, "aux_hdr.txt"), "w").write("/* decoy header from the working directory */\n")
     before = snap(d)
     rc, out, err = sh(cmd, cwd=d, input=stdin if stdin is not None else b"", timeout=timeout, env=env)
     after = snap(d)
